@@ -26,6 +26,8 @@ def wh_saves(A):
 
 
 def run(W, chk):
+    from rules.common import borrow
+    borrow(W, chk, "C06", {"DEP-carried-snapshot"}, "a weight change takes effect from the epoch after the operation, also across Claim{until_epoch}")
     spec = {
         # variant: (fills?, delta amount origins, duration origin, user address origins, denom origin)
         ("ManagePosition", ".action", "Create"): (True, {"info.funds[*].amount"}, P + ".Create.unlocking_duration", {"info.sender", P + ".Create.receiver"}, {"info.funds[*].denom"}),
